@@ -192,7 +192,7 @@ func checkC18(t *testing.T, c Case) *stats.Verdict {
 				return checkpoint("after GC()")
 			}
 		case "advance":
-			m.now = m.now.Add(time.Duration(op.Dt) * tick)
+			m.now = m.now.Add(time.Duration(op.Dt) * c.tickOf())
 		}
 		return ""
 	}
